@@ -209,6 +209,11 @@ let () =
                if !sys.panicked then stop := true;
                add (snap_str !sys.endA 0); add "|"; add (snap_str !sys.endB 1);
                add (Printf.sprintf "|%d %d" (List.length !sys.netA) (List.length !sys.netB))
+             | "G" | "H" ->
+               ignore (step (LFairT (nat_of_int (p 1), z_of_int (p 2), (t.(0) = "H"))));
+               if !sys.panicked then stop := true;
+               add (snap_str !sys.endA 0); add "|"; add (snap_str !sys.endB 1);
+               add (Printf.sprintf "|%d %d" (List.length !sys.netA) (List.length !sys.netB))
              | "Q" -> add "q"
              | _ -> failwith ("bad label " ^ lab));
             if !stop || !sys.panicked then begin
